@@ -56,6 +56,11 @@ class CountingSequence(iteration.RowSequence):
         return super().__iter__()
 
 
+class NoSerialsNoMarks:
+    def of(self, obj) -> str:
+        return "?"
+
+
 def exc_name(e: BaseException) -> str:
     n = type(e).__name__
     known = {
@@ -254,6 +259,20 @@ class World:
                 t = self.pool[tn]
                 res = t.transferred_to(self.engines[en])
                 return self.report(n, "same" if res is t else "new", res)
+            case ["snap"]:
+                return "ok changed=[" + ",".join(self.snapshot_changes()) + "]"
+            case ["hash", an, bn]:
+                a, b = self.pool[an], self.pool[bn]
+                try:
+                    ha, hb = hash(a), hash(b)
+                    hashable = True
+                except TypeError:
+                    ha = hb = None
+                    hashable = False
+                return (
+                    f"ok hashable={show_bool(hashable)} equal={show_bool(a == b)} "
+                    f"samehash={show_bool(hashable and ha == hb)}"
+                )
             case ["unwrap", n, tn]:
                 t = self.pool[tn]
                 if not isinstance(t, Select):
@@ -455,6 +474,51 @@ class World:
                 r = self.pool[n]
                 return self.sqlw.run(self, r)
         return "bad-command"
+
+    def fingerprint(self, r) -> str:
+        """Everything C09 says must never change for a relation already handed out
+        (payload marks of marker relations are excluded: attaching a payload is allowed)."""
+        tree = proto.show_rel(r, NoSerialsNoMarks(), self.engine_names)
+        tree = tree.replace("(select+", "(select")
+        try:
+            h = str(hash(r))
+        except TypeError:
+            h = "unhashable"
+        parts = [tree, proto.show_meta(r, self.engine_names), str(r), h]
+        # leaf payload contents
+        def leaves(x):
+            from lsst.daf.relation import BinaryOperationRelation, MarkerRelation
+
+            if isinstance(x, LeafRelation):
+                yield x
+            elif isinstance(x, UnaryOperationRelation):
+                yield from leaves(x.target)
+            elif isinstance(x, BinaryOperationRelation):
+                yield from leaves(x.lhs)
+                yield from leaves(x.rhs)
+            elif isinstance(x, MarkerRelation):
+                yield from leaves(x.target)
+
+        for leaf in leaves(r):
+            p = leaf.payload
+            if isinstance(p, sql.Payload):
+                n = self.sqlw.count_rows(p.from_clause)
+                parts.append(f"{leaf.name}:sql:{len(p.where)}:{sorted(map(str, p.columns_available))}:{n}")
+            elif hasattr(p, "rows"):
+                parts.append(f"{leaf.name}:iter:{proto.show_rows(p.rows if isinstance(p.rows, list) else list(p.rows.values()))}")
+        return "|".join(parts)
+
+    def snapshot_changes(self) -> list[str]:
+        old = getattr(self, "_snap", {})
+        new = {}
+        changed = []
+        for name in sorted(self.pool):
+            fp = self.fingerprint(self.pool[name])
+            new[name] = fp
+            if name in old and old[name] != fp:
+                changed.append(name)
+        self._snap = new
+        return changed
 
     def pulls(self, before: dict[str, int]) -> str:
         out = []
